@@ -64,6 +64,9 @@ META["rule"] += (
 META["rule"] += (
     " " + 'Added after the seventh round: spectral measures on unconnected graphs with a simple leading eigenvalue (half of the two-component graphs have equal-sized components); 30 % of the resistive networks built without a grid (geographic measures left out).')
 
+META["rule"] += (
+    " " + 'Added after the eighth round: on the large networks a layer of consecutive nodes plus one further node (three in turn, same targets) as int8 / uint8 / int16 arrays for the group measures, and one nsi_betweenness(parallelize=True) against the renumbered serial answer.')
+
 HIST = ("distribution", "cdf", "histogram", "entropy")
 # nsi_degree_histogram & co. bin float values: when all nodes have the same
 # n.s.i. degree, rounding decides the bin (frequency histograms are outside
@@ -672,6 +675,76 @@ def large_case(ctx, n, j):
                 if comp and not good:
                     ctx.violation(f"Network:{lab}:not-equivariant:large",
                                   {**case, "orig": a, "relabelled": b}, cid)
+        # the optional process pool is one more way of asking the same thing
+        ok0, v0 = ctx.call(o0.nsi_betweenness, parallelize=True)
+        ok1, v1 = ctx.call(o1.nsi_betweenness)
+        ctx.evals(2)
+        if ok0 and ok1:
+            ctx.count("large_pool_measures")
+            if not eq(np.asarray(v0, float)[p], np.asarray(v1, float),
+                      tol_for("nsi_betweenness"), float(np.sum(w)) ** 2):
+                ctx.violation("Network:nsi_betweenness(parallelize=True):"
+                              "not-equivariant:large", case, cid)
+        elif ok0 != ok1:
+            ctx.violation("Network:nsi_betweenness(parallelize=True):raises-"
+                          "on-one-labelling:large",
+                          {**case, "exc": repr(v1 if ok0 else v0)}, cid)
+        # node groups on the large network: a layer of consecutive nodes
+        # plus one further node, asked for several such nodes in turn (the
+        # lists are handed over as arrays of the narrowest integer type
+        # that holds the node numbers, the way np.arange(..., dtype=...) or
+        # a loaded index file delivers them)
+        from pyunicorn.core import InteractingNetworks
+        inv = np.argsort(p)
+        c = int(r.integers(65, 80))
+        with ctx.quiet():
+            i0 = InteractingNetworks(adjacency=A, node_weights=w,
+                                     silence_level=3)
+            i1 = InteractingNetworks(adjacency=A[np.ix_(p, p)],
+                                     node_weights=w[p], silence_level=3)
+        for x in r.choice(np.arange(c, 96), 3, replace=False):
+            dt = (np.int8, np.uint8, np.int16)[int(x) % 3]
+            g1 = np.append(np.arange(c), int(x)).astype(dt)
+            g2 = np.arange(96, 128).astype(dt)     # the same every time
+            h1, h2 = inv[g1].astype(np.int16), inv[g2].astype(np.int16)
+            for m, obj0, obj1, style in (
+                    ("nsi_betweenness", o0, o1, "kw"),
+                    ("interregional_betweenness", o0, o1, "kw"),
+                    ("number_cross_links", i0, i1, "pos"),
+                    ("cross_link_density", i0, i1, "pos"),
+                    ("cross_degree", i0, i1, "pos"),
+                    ("nsi_cross_degree", i0, i1, "pos"),
+                    ("number_internal_links", i0, i1, "one"),
+                    ("internal_degree", i0, i1, "one")):
+                f0, f1 = getattr(obj0, m), getattr(obj1, m)
+                if style == "kw":
+                    ok0, v0 = ctx.call(f0, sources=g1, targets=g2)
+                    ok1, v1 = ctx.call(f1, sources=h1, targets=h2)
+                elif style == "pos":
+                    ok0, v0 = ctx.call(f0, g1, g2)
+                    ok1, v1 = ctx.call(f1, h1, h2)
+                else:
+                    ok0, v0 = ctx.call(f0, g1)
+                    ok1, v1 = ctx.call(f1, h1)
+                ctx.evals(2)
+                if not (ok0 and ok1):
+                    if ok0 != ok1:
+                        ctx.violation(f"Network:{m}(groups):raises-on-one-"
+                                      "labelling:large",
+                                      {**case, "exc": repr(v1 if ok0 else v0)},
+                                      cid)
+                    continue
+                a = np.asarray(v0, dtype=float)
+                b = np.asarray(v1, dtype=float)
+                ctx.count("large_group_measures")
+                ctx.nontrivial(("large", m, n, int(x)))
+                good = eq(a[p], b, tol_for(m)) if style == "kw" and \
+                    a.shape == (n,) else eq(a, b, tol_for(m))
+                if not good:
+                    ctx.violation(f"Network:{m}(groups):not-equivariant:"
+                                  "large", {**case, "further_node": int(x),
+                                            "layer": c, "dtype": str(dt)},
+                                  cid)
 
 
 def run(ctx):
